@@ -89,7 +89,13 @@ def gen_sender(rng, tier, force_w=None, rep=None):
         base = conformant_acks(rng, nblocks, w, faults=0.0)
         cut = rng.randint(0, len(base))
         evs += base[:cut]
-        evs += rng.choice([["T"] * 7, ["E@0"], ["T", "T", "G@0", "T", "O@0", "T", "T"], ["T"] * 3 + base[cut:cut + 1] + ["T"] * 7])
+        last = int(base[cut - 1][1:].split("@")[0]) if cut > 0 else 0
+        dup = "A%d@0" % last
+        stale = "A%d@0" % ((last - 1) % 65536)
+        k = rng.randint(0, 5)
+        evs += rng.choice([["T"] * 7, ["E@0"], ["T", "T", "G@0", "T", "O@0", "T", "T"], ["T"] * 3 + base[cut:cut + 1] + ["T"] * 7,
+                           ["T"] * k + [dup] + ["T"] * 8, [dup] * 6 + ["T"] * 8, ["T"] * k + [stale] * (6 - k) + ["T"] * 8,
+                           [rng.choice(["T", dup, stale, "G@0", "O@0"]) for _ in range(8)] + ["T"] * 8])
     return "snd %d %d %d %d %d %s %s" % (b, w, tmo, rp, chk, f, " ".join(evs))
 
 
